@@ -291,6 +291,7 @@ def check_chunk(items, acc):
         nodes, carve = typed_nodes(up[blk])
         for idx, (n, w, ex, role) in enumerate(nodes): table.setdefault(id(n.ast), idx)
         acc.count("accepted")
+        acc.count("accepted_" + block_cause(up[blk]).replace("block-has-", "").replace("-", "_"))
         if any(not ex for n, w, ex, role in nodes): acc.add("accepted_with_implicit", fsig)
       else:
         acc.count("rejected")
@@ -435,7 +436,9 @@ def finish(acc, tier):
     evaluations=int(acc.n["evaluations"]), distinct_nontrivial=acc.size("accepted_with_implicit"),
     rule="one evaluation = one update block generated, converted, type-checked alone, and (if accepted) executed with probes over all 192 inputs, or one literal value; "
          "non-trivial = distinct accepted (form, expression shape) blocks containing at least one implicitly sized term that the checker re-sized from its context",
-    exhaustive=True, blocks_accepted=int(acc.n["accepted"]), blocks_rejected=int(acc.n["rejected"]), carve_out_blocks=int(acc.n["carve_out_blocks"]),
+    exhaustive=True, blocks_accepted=int(acc.n["accepted"]), blocks_rejected=int(acc.n["rejected"]),
+    accepted_blocks_checked_strictly=int(acc.n["accepted_explicit"]), accepted_blocks_in_known_class_implicit_int=int(acc.n["accepted_implicit_int"]),
+    accepted_blocks_in_known_class_folded_constant=int(acc.n["accepted_folded_constant"]), carve_out_blocks=int(acc.n["carve_out_blocks"]),
     literals=int(acc.n["literals"]),
     bounds=dict(leaves=sorted(LEAVES), depth="1 full, 2 over 9 representative leaves", forms=[f[0] for f in FORMS]),
   )
